@@ -8,7 +8,7 @@ ID = "C04"
 COQ_IMPORTS = ["From HTA.model Require Import C04_Model."]
 SOURCES = {"hta/analyzers/breakdown_analysis.py": ["_get_idle_time_for_kernels", "get_temporal_breakdown"],
            "hta/utils/utils.py": ["merge_kernel_intervals", "get_kernel_type", "is_comm_kernel", "is_memory_kernel", "is_compute_kernel"]}
-TRANSLATE = [translate.gen_kernel_rules]
+TRANSLATE = [translate.gen_kernel_rules, translate.gen_launch_names]
 INPUT_CONTRACT = True        # the loaded frame is re-checked against the file (framework.input_contract)
 N_CASES = {"quick": 400, "thorough": 6000}
 RULE = ("generated file sets, mostly profile free_overlap (device intervals anywhere on a tiny time domain: identical, nested, touching, "
